@@ -384,7 +384,34 @@ pub fn cmd_sweep_c12(args: &[String]) {
             }
         }
     }
-    rep.sample(json!({"lengths": "0..=80 (16..=64 accepted)", "ids": ids.iter().map(|x| x.to_string()).collect::<Vec<_>>()}));
+    // structured contexts: a zero byte at every position followed by non-zero bytes, all-zero, all-0xff, printable, and
+    // pairs that differ only behind a zero byte; every byte of the context must reach the subkey
+    let key: [u8; 32] = rng.arr();
+    let mut ctxs: Vec<[u8; 8]> = vec![[0u8; 8], [0xffu8; 8], *b"hello123", *b"ab\0cdefg", [0, 1, 2, 3, 4, 5, 6, 7], [1, 0, 0, 0, 0, 0, 0, 9], [0, 0, 0, 0, 0, 0, 0, 1]];
+    for z in 0..8 { let mut c: [u8; 8] = rng.arr(); for b in c.iter_mut() { if *b == 0 { *b = 1; } } c[z] = 0; ctxs.push(c); }
+    for c in ctxs.clone().iter() {
+        for &len in [16usize, 32, 33, 64].iter() {
+            for &id in [0u64, 1, u64::MAX].iter() {
+                let (imps, sod) = kdf(len, id, c, &key);
+                compare(&mut rep, "kdf", imps, &[("libsodium", sod.as_ref())], json!({"len": len, "id": id.to_string(), "context": hex(c), "seed": seed}));
+            }
+        }
+        // flipping any single byte of the context changes the subkey
+        let (_, base) = kdf(32, 7, c, &key);
+        for i in 0..8 {
+            let mut c2 = *c; c2[i] ^= 0x40;
+            let (imps, _) = kdf(32, 7, &c2, &key);
+            for (name, got) in imps { rep.evaluations += 1; if got.ok() == base { rep.fail(&format!("kdf: {} ignores byte {} of the context", name, i), json!({"context": hex(c)})); } }
+        }
+    }
+    // subkey lengths far outside the range: errors, never a short write (lengths whose low byte falls into 16..=64 included)
+    for &len in [65usize, 100, 127, 128, 255, 256, 257, 271, 272, 288, 300, 320, 321, 512, 528, 544, 576, 1040, 4096 + 32, 65536 + 32, 65536 + 16].iter() {
+        let ctx: [u8; 8] = rng.arr();
+        let (imps, sod) = kdf(len, 3, &ctx, &key);
+        if sod.is_some() { rep.fail("libsodium accepts a subkey length outside 16..=64 (harness error)", json!(len)); }
+        for (name, got) in imps { rep.evaluations += 1; if got.is_ok() { rep.fail(&format!("kdf: {} accepts a subkey length outside 16..=64", name), json!({"len": len})); } }
+    }
+    rep.sample(json!({"lengths": "0..=80 (16..=64 accepted) and 21 lengths up to 65568", "ids": ids.iter().map(|x| x.to_string()).collect::<Vec<_>>(), "structured_contexts": ctxs.len()}));
     rep.write(&args[0]);
 }
 
@@ -740,7 +767,9 @@ pub fn cmd_sweep_c09(args: &[String]) {
         // out-of-range parameters are errors, on both sides
         let pw = b"password".to_vec();
         let salt = [7u8; 16];
-        for (what, t, mem, outlen) in [("opslimit 0", 0u64, 8192usize, 32usize), ("memlimit 8191", 1, 8191, 32), ("memlimit 0", 1, 0, 32), ("outlen 15", 1, 8192, 15), ("outlen 0", 1, 8192, 0), ("opslimit 2^32", 1u64 << 32, 8192, 32)] {
+        for (what, t, mem, outlen) in [("opslimit 0", 0u64, 8192usize, 32usize), ("memlimit 8191", 1, 8191, 32), ("memlimit 0", 1, 0, 32), ("outlen 15", 1, 8192, 15), ("outlen 0", 1, 8192, 0), ("opslimit 2^32", 1u64 << 32, 8192, 32),
+            ("opslimit 2^32+1", (1u64 << 32) + 1, 8192, 32), ("opslimit 7*2^32+3", (7u64 << 32) + 3, 8192, 32), ("opslimit 2^63+2", (1u64 << 63) + 2, 8192, 32),
+            ("memlimit 2^42+8192 (KiB count wraps to 8)", 1, (1usize << 42) + 8192, 32), ("memlimit 2^42+2^26", 1, (1usize << 42) + (1usize << 26), 32)] {
             let mut o = vec![0u8; outlen];
             let r = catch(|| cp::crypto_pwhash(&mut o, &pw, &salt, t, mem, cp::PasswordHashAlgorithm::Argon2id13));
             let mut so_o = vec![0u8; outlen.max(1)];
@@ -748,6 +777,16 @@ pub fn cmd_sweep_c09(args: &[String]) {
             rep.evaluations += 1;
             if rc == 0 { rep.fail("libsodium accepts an out-of-range parameter (harness error)", json!(what)); continue; }
             match r { Ok(Err(_)) => {}, Ok(Ok(())) => rep.fail("crypto_pwhash accepts an out-of-range parameter", json!(what)), Err(p) => rep.fail("crypto_pwhash panics on an out-of-range parameter", json!({"what": what, "panic": p})) }
+        }
+        // the same limits through the object API
+        for (what, t, mem) in [("opslimit 0", 0u64, 8192usize), ("opslimit 2^32+1", (1u64 << 32) + 1, 8192), ("opslimit 7*2^32+3", (7u64 << 32) + 3, 8192), ("memlimit 8191", 1, 8191), ("memlimit 2^42+8192", 1, (1usize << 42) + 8192)] {
+            rep.evaluations += 1;
+            let cfg = dryoc::pwhash::Config::interactive().with_opslimit(t).with_memlimit(mem);
+            match catch(|| dryoc::pwhash::PwHash::<Vec<u8>, Vec<u8>>::hash_with_salt(&pw, salt.to_vec(), cfg)) {
+                Ok(Err(_)) => {}
+                Ok(Ok(_)) => rep.fail("PwHash::hash_with_salt accepts an out-of-range parameter", json!(what)),
+                Err(p) => rep.fail("PwHash::hash_with_salt panics on an out-of-range parameter", json!({"what": what, "panic": p})),
+            }
         }
         // salts shorter than 8 bytes are outside Argon2's domain
         let mut o = [0u8; 32];
